@@ -607,3 +607,60 @@ def rule_rf_returns_fresh(prog: Program, report: Report) -> None:
                 report.ob("RF-fresh", key, f"`return {src(v)[:40]}`: a container created in this activation")
             else:
                 report.violate("RF-fresh", fn, r, f"`return {src(v)[:50]}` hands out an object the function did not create", f"{why}; `{src(v)[:40]}` is a parameter or another object's container", what=f"{fn.qual} returns a fresh container")
+
+
+def rule_rf_owner_init(prog: Program, report: Report) -> None:
+    """RF-own: a field that the package mutates in place (the OWNERS table: accumulators, parser and
+    fitter working lists, caches) must be *its instance's own* container: every assignment to it
+    stores a container created there (a display, a copy, a slice, a fresh-returning call), or the
+    constructor's parameter whose callers hand over a fresh one.  `self.stash_marks = Mark.none`
+    would let `append` change the shared empty mark set of every document."""
+    report.rules.append("RF-own")
+    tm = prog.types
+    fr = Fresh(prog, compute_returns_fresh(prog))
+    n = 0
+    for fn in prog.all_funcs():
+        for node in walk_own(fn.node):
+            if not isinstance(node, (ast.Assign, ast.AnnAssign)):
+                continue
+            tgts = node.targets if isinstance(node, ast.Assign) else [node.target]
+            val = node.value
+            if val is None:
+                continue
+            for t in tgts:
+                if not isinstance(t, ast.Attribute):
+                    continue
+                owners = tm.instance_names(fn.module, t.value)
+                hit = [o.rsplit(".", 1)[-1] for o in owners if (o.rsplit(".", 1)[-1], t.attr) in OWNERS]
+                if not hit:
+                    continue
+                n += 1
+                text = " ".join(src(node).split())[:90]
+
+                def ok(e: ast.AST) -> bool:
+                    if isinstance(e, ast.Constant) and e.value is None:
+                        return True
+                    if fr.fresh_expr(e, fn):
+                        return True
+                    if isinstance(e, ast.BoolOp):
+                        return all(ok(x) for x in e.values)
+                    if isinstance(e, ast.IfExp):
+                        return ok(e.body) and ok(e.orelse)
+                    if isinstance(e, ast.Name) and e.id in fn.params() and fn.name == "__init__":
+                        return True  # ownership handed to the constructor (call sites below)
+                    if isinstance(e, ast.Call) and isinstance(e.func, ast.Name) and e.func.id == "cast" and len(e.args) == 2:
+                        return ok(e.args[1])
+                    if isinstance(e, ast.Call) and isinstance(e.func, (ast.Name, ast.Attribute)):
+                        nm = e.func.id if isinstance(e.func, ast.Name) else e.func.attr
+                        if nm[:1].isupper() or nm in ("dfa", "nfa", "from_", "parse"):
+                            return True  # a newly constructed object
+                    if isinstance(e, ast.Attribute) and e.attr == t.attr:
+                        return True  # re-binding another instance's same working field (parser context hand-over)
+                    return False
+
+                if ok(val):
+                    report.ob("RF-own", fn.key, f"`{text}`: the in-place mutated field {hit[0]}.{t.attr} gets a container of its own")
+                else:
+                    report.violate("RF-own", fn, node, f"`{text}` stores a shared object in a field that is mutated in place", f"{hit[0]}.{t.attr} is {OWNERS[(hit[0], t.attr)]}: the package appends to / removes from it in place, so it must hold a container created for this instance; `{src(val)[:50]}` is not one (a shared constant such as Mark.none / Fragment.empty, or a caller's list, would be changed for everybody)", what="in-place mutated fields hold their own container")
+    report.count("RF-own assignments to in-place mutated fields", n)
+    report.expect_at_least("RF-own", "assignments to in-place mutated fields", n, 12)
